@@ -22,7 +22,11 @@ RULE = ("Hypothesis draws write programs: 1-2 writer sessions (first 'w', later 
         "NumPy scalars, explicit nptdms.types wrappers) with arbitrary Unicode names. Oracle: a dictionary model of the "
         "program (concatenation per channel, last value per property) against TdmsFile.read, plus property TDMS type codes "
         "read from the bytes by the independent parser. Non-trivial: >=2 segments touch one channel, or a property is "
-        "re-written, or there is a session boundary.")
+        "re-written, or there is a session boundary."
+        ' Every accepted program is also read lazily (TdmsFile.open, channels first-to-last and last-to-first, plus '
+        'the window holding each single write); further jobs write long arrays whose lengths lie on and next to '
+        'powers of two (512..196608 values, path and stream targets) and 100-140 segments with twin channels; '
+        'programs may overwrite an existing file or use one writer object for all sessions.')
 ASSUMPTIONS = [
     "programs the writer rejects are outside the statement (acceptance rate is measured; < 95% makes the run inconclusive)",
     "one data type per channel over the program (lists of ints are pinned to one inference bracket)",
